@@ -36,7 +36,7 @@ def exp_api(st):
     for h, rec in enumerate(_seq(st["api"]), 1):
         if not rec.get("live"):
             continue
-        out[h] = {"names": sorted(_seq(rec.get("names"))),
+        out[h] = {"names": sorted(_seq(rec.get("names"))), "children": sorted(_seq(rec.get("children"))),
                   "vals": {e["n"]: _seq(e["v"]) for e in _seq(rec.get("vals"))},
                   "pgs": sorted((p["name"], p["ptype"], tuple(_seq(p["props"]))) for p in _seq(rec.get("pgs")))}
     return out
@@ -74,7 +74,7 @@ def got_api(scene):
                 vals[name] = v
         pgs = rec["pgs"]
         pgs = pgs if isinstance(pgs, str) else sorted((n, p["type"], tuple(p["props"])) for n, p in pgs.items())
-        out[h] = {"names": rec["names"], "vals": vals, "pgs": pgs}
+        out[h] = {"names": rec["names"], "vals": vals, "pgs": pgs, "children": rec["children"]}
     return out
 
 
@@ -137,6 +137,8 @@ def table_deviation(t):
         return "StalePgIdCache"
     if same_table(t["pred"], t["ideal"]):
         return None
+    if t.get("dirty"):  # a renamed data set whose slice stayed under the old label
+        return "RenameKeepsLabel"
     if t["ideal"]["out"] == "ok" and not _seq(t["ideal"]["rows"]) and t["pred"]["out"] == "raises":
         return "EmptyTableRaises"
     return "TableByLabel"
@@ -159,8 +161,13 @@ def compare_state(scene, st, after_reopen=False, findings=None):
         for n, v in want[h]["vals"].items():
             if got[h]["vals"].get(n) != v:
                 raise Mismatch("api-readback", f"hole {h} data {n}: read {got[h]['vals'].get(n)} expected {v}")
+        if want[h]["children"] != got[h]["children"]:
+            raise Mismatch("api-children", f"hole {h}: data in hole.children {got[h]['children']} expected {want[h]['children']}")
         if want[h]["pgs"] != got[h]["pgs"]:
             raise Mismatch("api-property-groups", f"hole {h}: property groups {got[h]['pgs']} expected {want[h]['pgs']}")
+    gch = scene.observe_group_children()
+    if gch != sorted(_seq(st["s"]["gch"])):
+        raise Mismatch("api-group-children", f"holes in group.children {gch} expected {sorted(_seq(st['s']['gch']))}")
     # (2) raw datasets
     raw = scene.observe_raw(with_attrs=after_reopen)
     want_labels = {LABEL_OF.get(x, x) for x in _seq(st["s"]["labels"])}
@@ -313,4 +320,4 @@ def replay_path(item):
         if scene is not None:
             scene.close()
         shutil.rmtree(work, ignore_errors=True)
-    return {"violations": viol, "findings": findings, "steps": done}
+    return {"violations": viol, "findings": findings, "steps": done, "mismatch_step": done if viol else None}
